@@ -631,6 +631,12 @@ def hs_check(prop, tier, kind, cls, rule, level):
     wd = vlib.workdir(prop)
     r = vlib.model_check("MC_Handshake.tla", "MC_Handshake.cfg", wd)
     out.add_s1(r, "MC_Handshake (two peers, every fragmentation and interleaving, P = 3, T = 2; safety + liveness under weak fairness)")
+    r = vlib.model_check("MC_HandshakeLegacy.tla", "MC_HandshakeLegacy.cfg" if tier == "quick" else "MC_HandshakeLegacy_big.cfg", wd, workers=4,
+                         need_actions=["LibGenerate", "LibDeliver", "LibTrailing", "PeerSend01", "PeerSend2", "PeerDeliver", "PeerTrailing"])
+    out.add_s1(r, "MC_HandshakeLegacy (library stage machine x digest-less peer from the protocol description: active / passive / batching / "
+                  "strict; bytes carry identity: echo, order and exactly-once on content; safety + liveness)")
+    r = vlib.model_check("MC_HandshakeLegacy.tla", "MC_HandshakeLegacy_dead.cfg", wd, workers=2, expect_violation="Live")
+    out.cov["negative_control_legacy"] = "two passive sides: TLC refutes Live"
     logs = sess_logs(wd, "hs", kind, tier)
     res = vlib.parallel([(lambda pth=pth: vlib.validate_trace("Trace_Handshake.tla", pth, wd, {"P": 1536})) for pth, _ in logs], nproc=8)
     for (pth, info), r in zip(logs, res):
